@@ -2,7 +2,6 @@ package gomatrixserverlib
 
 import (
 	"bytes"
-	"encoding/json"
 	"fmt"
 	"strings"
 
@@ -89,7 +88,7 @@ func newEventFromUntrustedJSONV3(eventJSON []byte, roomVersion IRoomVersion) (PD
 		}
 	}
 
-	if err = json.Unmarshal(eventJSON, res); err != nil {
+	if err = unmarshalEventFields(eventJSON, res); err != nil {
 		return nil, err
 	}
 	// The keys deleted above are gone from the JSON, but encoding/json matches member
@@ -156,7 +155,7 @@ func newEventFromUntrustedJSONV3(eventJSON []byte, roomVersion IRoomVersion) (PD
 
 func newEventFromTrustedJSONV3(eventJSON []byte, redacted bool, roomVersion IRoomVersion) (PDU, error) {
 	res := eventV3{}
-	if err := json.Unmarshal(eventJSON, &res); err != nil {
+	if err := unmarshalEventFields(eventJSON, &res); err != nil {
 		return nil, err
 	}
 
@@ -175,7 +174,7 @@ func newEventFromTrustedJSONV3(eventJSON []byte, redacted bool, roomVersion IRoo
 
 func newEventFromTrustedJSONWithEventIDV3(eventID string, eventJSON []byte, redacted bool, roomVersion IRoomVersion) (PDU, error) {
 	res := &eventV3{}
-	if err := json.Unmarshal(eventJSON, res); err != nil {
+	if err := unmarshalEventFields(eventJSON, res); err != nil {
 		return nil, err
 	}
 
